@@ -292,4 +292,55 @@ def buildPlotDataOpt (removeEmpties : Bool) (ms : List Metric) (t : List Cell) :
     let kept := keepEntries removeEmpties (lookupLastAll c fs)
     { base := mkRecord c (nonEmpty kept), entries := kept, tooltip := tooltipNames c kept }
 
+/-! ## the options `flat` and `keep_samples`
+
+`flat=True` applies `_flatten_dict` to every record: the entry `record[metric][stat]` moves to the key
+`"<metric>_<stat>"`, an empty summary `{}` leaves no key at all. `keep_samples=True` changes ONE entry of a
+sample-valued summary, `metric`, from the mean of the metric to the dict `{0: x₀, 1: x₁, …}` of its samples
+(`FieldSummary.__post_init__`); scalar and length-1 metrics go through `FieldSummary(name, metric)` without the
+flag and keep their mean. -/
+
+def flatKeyL (m k : List Char) : List Char := m ++ '_' :: k
+
+/-- `_flatten_dict`: the key of `record[metric][stat]` in the flat record, `"<metric>_<stat>"` -/
+def flatKey (m k : String) : String := String.ofList (flatKeyL m.toList k.toList)
+
+/-- the metric part of a flat record: nested `{metric: {stat: v}}` ↦ `{metric_stat: v}`; an empty summary leaves
+no key -/
+def flattenSummaries (ne : List (String × Summary)) : List (String × SVal) :=
+  ne.flatMap fun e => e.2.stats.map fun kv => (flatKey e.1 kv.1, kv.2)
+
+/-- the `metric` entry of a summary -/
+inductive MetricEntry where
+  | mean (q : Rat)
+  | samples (d : List (Nat × Rat))
+deriving DecidableEq, Repr, Inhabited
+
+/-- `{i: v for i, v in enumerate(metric)}` -/
+def enumerate (xs : List Rat) : List (Nat × Rat) := (List.range xs.length).zip xs
+
+def metricEntry (keepSamples : Bool) : MV → MetricEntry
+  | .scalar q => .mean q
+  | .sample [x] => .mean x
+  | .sample xs => if keepSamples then .samples (enumerate xs) else .mean (mean xs)
+
+/-- a summary together with its `metric` entry -/
+structure SummaryK where
+  summary : Summary
+  metric : MetricEntry
+deriving DecidableEq, Repr, Inhabited
+
+/-- `_calculate_field_summary(..., keep_samples)` on a metric that is not `None` -/
+def fieldSummaryK (keepSamples : Bool) (mv : MV) : SummaryK := ⟨fieldSummary mv, metricEntry keepSamples mv⟩
+
+/-- the slots of one cell with the option `keep_samples` -/
+def cellSummariesAllK (keepSamples : Bool) (ms : List Metric) (c : Cell) (p n : Option Cell) :
+    List (String × Option SummaryK) :=
+  ms.map fun m => (toSnake m.name, (safeApplyMetric m c p n).map (fieldSummaryK keepSamples))
+
+/-- the `metric` entries of one cell's non-empty summaries (`record[name]["metric"]`) with the option `keep_samples` -/
+def metricEntries (keepSamples : Bool) (ms : List Metric) (c : Cell) (p n : Option Cell) :
+    List (String × MetricEntry) :=
+  ms.filterMap fun m => (safeApplyMetric m c p n).map fun mv => (toSnake m.name, metricEntry keepSamples mv)
+
 end Bermuda.Plot
